@@ -552,7 +552,7 @@ const (
 // was obtained.
 //
 //verif:contract (*~/server/proxy.BaseProxy).handleUserTCPConnection
-//verif:props C01
+//verif:props C01 C05
 func verif_handleUserTCPConnection(pxy *BaseProxy, userConn net.Conn) {
 	cfg := pxy.configurer.GetBaseConfig()
 	enc, comp := cfg.Transport.UseEncryption, cfg.Transport.UseCompression
@@ -641,4 +641,26 @@ func verifUDPSenderStep(conn net.Conn) bool {
 func verif_UDPProxy_workConnSender(conn net.Conn, ctx context.Context) {
 	verif.ResetEvents()
 	verif.CallTarget(conn, ctx)
+}
+
+// The work-connection loop (one arbitrary iteration that installed a work
+// connection): the sender started for this connection is told to stop - its
+// context cancelled - in the same iteration, as soon as the connection is
+// reported broken, so it never competes with the next connection's sender for
+// the datagrams on the send channel.
+//
+//verif:loopbody (*~/server/proxy.UDPProxy).Run$4 1 check=verifUDPWorkConnLoopStep args=pxy
+func verifUDPWorkConnLoopStep(pxy *UDPProxy) bool {
+	if !verif.CalledInIter("context.WithCancel") {
+		return true
+	}
+	return verif.CalledInIter("context.WithCancel$fn$")
+}
+
+//verif:contract (*~/server/proxy.UDPProxy).Run$4
+//verif:props C03
+//verif:kinds loop,post,pre
+func verif_UDPProxy_workConnLoop() {
+	verif.ResetEvents()
+	verif.CallTarget()
 }
